@@ -11,7 +11,7 @@
 //! structure, since this structure is immutable.
 //!
 
-use crate::dag::{Dag, DagLike, NoSharing};
+use crate::dag::{Dag, DagLike};
 use crate::Tmr;
 
 use std::sync::Arc;
@@ -118,62 +118,84 @@ impl fmt::Debug for Final {
 
 impl fmt::Display for Final {
     fn fmt(&self, f: &mut fmt::Formatter) -> fmt::Result {
-        let mut skipping: Option<Tmr> = None;
-        for data in self.verbose_pre_order_iter::<NoSharing>(None) {
-            if let Some(skip) = skipping {
-                if data.is_complete && data.node.tmr == skip {
-                    skipping = None;
+        self.fmt_bounded(f, super::MAX_DISPLAY_LENGTH).map(|_| ())
+    }
+}
+
+impl Final {
+    /// Displays the type, visiting at most `max_nodes` of its nodes.
+    ///
+    /// Complete types are DAGs whose tree expansion can be exponentially large (think of
+    /// `x -> (x, x)` iterated a few dozen times), so like for incomplete types the output
+    /// is cut off after a maximum number of nodes. Word types are displayed by name without
+    /// visiting their nodes.
+    ///
+    /// Returns the number of nodes that were visited, so that callers which display several
+    /// complete types as part of a larger type can share one budget between them.
+    pub(super) fn fmt_bounded(
+        &self,
+        f: &mut fmt::Formatter,
+        max_nodes: usize,
+    ) -> Result<usize, fmt::Error> {
+        enum Task<'a> {
+            /// Display a type. The flag is set for the root, which gets no parentheses.
+            Type(&'a Final, bool),
+            Str(&'static str),
+        }
+
+        let mut n_nodes = 0;
+        let mut stack = vec![Task::Type(self, true)];
+        while let Some(task) = stack.pop() {
+            let (ty, is_root) = match task {
+                Task::Type(ty, is_root) => (ty, is_root),
+                Task::Str(s) => {
+                    f.write_str(s)?;
+                    continue;
                 }
-                continue;
-            } else {
-                if data.node.tmr == Tmr::TWO_TWO_N[0] {
-                    f.write_str("2")?;
-                    skipping = Some(data.node.tmr);
-                }
-                for (n, tmr) in Tmr::TWO_TWO_N.iter().enumerate().skip(1) {
-                    if data.node.tmr == *tmr {
-                        write!(f, "2^{}", 1 << n)?;
-                        skipping = Some(data.node.tmr);
-                    }
-                }
+            };
+
+            if n_nodes >= max_nodes {
+                write!(f, "... [truncated type after {} nodes]", n_nodes)?;
+                return Ok(n_nodes);
             }
-            if skipping.is_some() {
+            n_nodes += 1;
+
+            if let Some(n) = ty.as_word() {
+                if n == 0 {
+                    f.write_str("2")?;
+                } else {
+                    write!(f, "2^{}", 1u64 << n)?;
+                }
                 continue;
             }
 
-            match (&data.node.bound, data.n_children_yielded) {
-                (CompleteBound::Unit, _) => {
-                    f.write_str("1")?;
-                }
+            match ty.bound {
+                CompleteBound::Unit => f.write_str("1")?,
                 // special-case 1 + A as A?
-                (CompleteBound::Sum(ref left, _), 0)
+                CompleteBound::Sum(ref left, ref right)
                     if matches!(left.bound, CompleteBound::Unit) =>
                 {
-                    skipping = Some(Tmr::unit());
-                }
-                (CompleteBound::Sum(ref left, _), 1)
-                    if matches!(left.bound, CompleteBound::Unit) => {}
-                (CompleteBound::Sum(ref left, _), 2)
-                    if matches!(left.bound, CompleteBound::Unit) =>
-                {
-                    f.write_str("?")?;
+                    stack.push(Task::Str("?"));
+                    stack.push(Task::Type(right, false));
                 }
                 // other sums and products
-                (CompleteBound::Sum(..), 0) | (CompleteBound::Product(..), 0) => {
-                    if data.index > 0 {
+                CompleteBound::Sum(ref left, ref right)
+                | CompleteBound::Product(ref left, ref right) => {
+                    if !is_root {
                         f.write_str("(")?;
+                        stack.push(Task::Str(")"));
                     }
+                    stack.push(Task::Type(right, false));
+                    stack.push(Task::Str(if let CompleteBound::Sum(..) = ty.bound {
+                        " + "
+                    } else {
+                        " × "
+                    }));
+                    stack.push(Task::Type(left, false));
                 }
-                (CompleteBound::Sum(..), 2) | (CompleteBound::Product(..), 2) => {
-                    if data.index > 0 {
-                        f.write_str(")")?;
-                    }
-                }
-                (CompleteBound::Sum(..), _) => f.write_str(" + ")?,
-                (CompleteBound::Product(..), _) => f.write_str(" × ")?,
             }
         }
-        Ok(())
+        Ok(n_nodes)
     }
 }
 
